@@ -24,10 +24,10 @@ def run(ctx):
         raise runner.Machinery("Spawn.tla emitted no vector")
     vecs.sort(key=lambda v: json.dumps(v))
     total = len(vecs)
-    if ctx.tier != "thorough":
-        # covering subset: every descriptor combination, every overlay, every way of ending at least several times
-        stride = 7
-        vecs = [v for i, v in enumerate(vecs) if (i + ctx.seed) % stride == 0]
+    # covering subset: every descriptor combination, every overlay, every way of ending at least several times
+    # (thorough: the larger configuration space of MC_Spawn_thorough.cfg, every 3rd configuration, rotating with the seed)
+    stride = 7 if ctx.tier != "thorough" else 3
+    vecs = [v for i, v in enumerate(vecs) if (i + ctx.seed) % stride == 0]
     nsh = 32 if ctx.tier == "thorough" else 16
     scratch = os.path.join(ctx.work, "spawn")
     os.makedirs(scratch, exist_ok=True)
